@@ -14,13 +14,119 @@ from urllib.parse import urlsplit as _urlsplit
 import lib
 
 PART = "small"
-THEOREMS = []
-TABLE_OBLIGATIONS = ["Ural.Props.C19.Small.no_record_has_url"]
-RULE = ""
-EXHAUSTIVE = {}
-TRUSTED = []
-ASSUMPTIONS = []
-UNPROVED = ""
+_T, _I, _G, _S = "Ural.Props.C19.Twitter.", "Ural.Props.C19.Instagram.", "Ural.Props.C19.Telegram.", "Ural.Props.C19.Small."
+THEOREMS = [
+    # --- twitter: totality (component level, step level, whole function), termination measure, well-formed records
+    _T + "listRoute_total",
+    _T + "twitterRoute_total",
+    _T + "twitterStep_total",
+    _T + "runSteps_only_recursion_error",
+    _T + "runSteps_total",
+    _T + "runSteps_limit_irrelevant",
+    _T + "parse_twitter_url_only_recursion_error",
+    _T + "reroute_count",
+    _T + "parse_twitter_url_total_partial",
+    _T + "fullParseTwitterTotal_false",
+    _T + "parse_twitter_url_limit_irrelevant",
+    _T + "extract_screen_name_only_recursion_error",
+    _T + "extract_screen_name_total_partial",
+    _T + "normalize_screen_name_ne_nil",
+    _T + "twitterRoute_nonempty",
+    _T + "twitter_record_wellformed",
+    # --- instagram: totality + validators (component level and whole function), meaning of the validators
+    _I + "instagramRoute_good",
+    _I + "parse_instagram_url_total",
+    _I + "instagram_record_valid",
+    _I + "extract_username_total",
+    _I + "is_instagram_post_shortcode_iff",
+    _I + "is_instagram_username_iff",
+    _I + "instagram_record_wellformed",
+    # --- telegram: totality + validator, convert_*, well-formed records
+    _G + "telegramRoute_good",
+    _G + "parse_telegram_url_total",
+    _G + "telegram_record_valid",
+    _G + "extract_channel_name_total",
+    _G + "convert_telegram_only_documented_error",
+    _G + "is_telegram_message_id_iff",
+    _G + "telegram_record_wellformed_partial",
+    _G + "fullTelegramWellFormed_false",
+    # --- shared lemmas the statements rest on
+    "Ural.C19Small.searchB_bos",
+    "Ural.C19Small.searchB_plus_iff",
+    "Ural.C19Small.safe_urlsplit_fragment_count",
+    "Ural.C19Small.pathsplit_ends",
+]
+TABLE_OBLIGATIONS = [
+    _S + "no_record_has_url",
+    _S + "record_fields_unchanged",
+    _S + "sub_patterns_anchored",
+    _S + "patterns_no_null_rep",
+    _S + "reserved_words_present",
+    _I + "shortcode_class",
+    _I + "username_class",
+    _G + "message_id_class_ascii",
+]
+RULE = (
+    "A case is one string given to the functions of one platform (tw: is_twitter_url, parse_twitter_url, "
+    "extract_screen_name_from_twitter_url; ig: is_instagram_url, parse_instagram_url, extract_username_from_instagram_url; tg: "
+    "is_telegram_url, parse_telegram_url, extract_channel_name_from_telegram_url, convert_telegram_url_to_public), or one string "
+    "given to the validators (is_instagram_post_shortcode, is_instagram_username, is_telegram_message_id, normalize_screen_name). "
+    "Order: corpus (inputs of the fixed defects FX-C19-7f9b1a7/fd4e778/d948b00/574a9dc/3e875d1, of the host-pattern fixes, the "
+    "statement's own examples, the two known findings), then per platform every path of 0-3 segments over the route vocabulary "
+    "+ id-like / handle-like / empty / too-long / non-ASCII segments on the main host with and without trailing slash, 4 and 5 "
+    "segments over the core vocabulary, hosts (www/mobile/country/case variants, look-alikes, userinfo, port, trailing dot, none) x "
+    "scheme forms x short paths, 5 queries x 17 fragments (hashbang routing incl. nested and empty) x short paths, twitter paths "
+    "carried by the fragment, all strings of length <= 3 (4) over {a . / : # !}, fixed odd strings, then seeded random urls and "
+    "strings. Non-trivial = the real is_*_url answers True (the routing code is reached) or a validator string; distinct = "
+    "distinct (platform, string). Inputs holding code points outside the model alphabet (NFKC- or case-unstable) are judged by "
+    "the oracle only."
+)
+EXHAUSTIVE = {
+    "quick": "per platform: every path of 0-2 segments over the full vocabulary (25/29/17 segments) x {https:// without, no scheme with trailing "
+    "slash}; every path of 3 segments over the first 15/15/13 words; 18 hosts x 9 scheme forms x paths of 0-1 core segments; 5 queries x 17 "
+    "fragments x paths of 0-2 over 5 core segments; twitter fragment paths of 0-3 segments over 11 words x {#!/, #!}; all strings of length <= 3 "
+    "over {a . / : # !}; 4- and 5-segment paths are sampled",
+    "thorough": "as quick with: every path of 3 segments over the full vocabulary, every path of 4 segments over the 9/9/7 core words and of 5 "
+    "segments over 6/6/5 of them, hosts x schemes x paths of 0-2 core segments, all strings of length <= 4 over {a . / : # !}",
+}
+TRUSTED = [
+    "Lean 4 kernel; axioms of every listed theorem audited to be within {propext, Classical.choice, Quot.sound}",
+    "hand-written Lean models Model/Twitter.lean, Model/Instagram.lean, Model/Telegram.lean, Model/C19SmallUtil.lean (every path[i] an "
+    "error-valued access; the eight regexes and the two word sets are the regenerated terms of Gen/C19SmallTables.lean), tied to the code "
+    "by differential execution on every run (record type and fields, None, exceptions by name)",
+    "re.search / re.sub on the regenerated terms: Re.matchEnds is proved sound and complete (Lemmas/Re.lean); that `re.search` is 'a match at "
+    "some position' and `re.sub` of a ^-anchored pattern replaces the first match the backtracking order finds is the modelling of CPython's "
+    "re, compared on every run; the character classes are computed by the running re over all code points (gen_tables/regex.py)",
+    "hand-written models of CPython's urlsplit / urlunsplit / SplitResult.hostname (Py/UrlSplit.lean, Py/Split.lean) and of ural's "
+    "safe_urlsplit, pathsplit, ensure_protocol (Model/Builders.lean, Model/Protocol.lean): modelled, not verified; _check_bracketed_host is "
+    "approximated and _checknetloc (NFKC) is not modelled; the routing theorems (twitterRoute/instagramRoute/telegramRoute) are stated over "
+    "ALL segment lists and fragments, so they do not depend on these models",
+    "Python's recursion limit is the parameter `limit` of the twitter model (nested self-calls still available); the harness gives the "
+    "model 900 and generates hashbang nestings <= 40 or = 1200 only",
+]
+ASSUMPTIONS = [
+    "inputs are str (a SplitResult argument, which safe_urlsplit also accepts, is outside the statement 'for every string')",
+    "model alphabet (DESIGN.md §4): ASCII exact; non-ASCII code points of the compared inputs are case-stable and NFKC-stable (é ж 日 🍊, "
+    "Arabic-Indic digits for \\d); İ ı ſ K and NFKC-unstable netloc characters (℀) are judged by the oracle only",
+    "well-formed record = one of the module's namedtuples, every field a non-empty str (InstagramPost.name may be None): the reading under "
+    "which the fixed defects 'twitter.com/@' (574a9dc) and 'youtube.com/@' were defects",
+    "documented error of convert_telegram_url_to_public = TypeError('… is not a telegram url'); the oracle demands that nothing else is "
+    "raised, and that it is not raised when urllib finds a telegram host (t.me, telegram.me, telegram.org or a subdomain) in a url without "
+    "square brackets",
+    "none of the nine record types has an `url` attribute (table obligation no_record_has_url): the round-trip clause does not apply to "
+    "this part; the oracle re-parses rec.url whenever a record has one",
+    "allow_relative_urls / fix_common_mistakes do not exist in these three modules",
+]
+UNPROVED = (
+    "parse_twitter_url / extract_screen_name_from_twitter_url: totality is proved for every string with at most `limit` '#' characters "
+    "(parse_twitter_url_total_partial; every re-entry consumes one '#'), and for EVERY string the only reachable exception is RecursionError "
+    "(parse_twitter_url_only_recursion_error); the full statement is proved false in the model (fullParseTwitterTotal_false) and fails on the "
+    "implementation: 'twitter.com/#' + '!#'*1200 + '!bob' raises RecursionError (KF-C19-S1, patch notes/fixes/c19-small-twitter-hashbang-loop.diff). "
+    "Telegram: 'no empty field' is proved except for a message read from /s//<id> (telegram_record_wellformed_partial; "
+    "fullTelegramWellFormed_false; KF-C19-S2 't.me/s//123', patch notes/fixes/c19-small-telegram-empty-name.diff). Round trip: no record "
+    "type of these modules builds a url, the clause has no object here. The host patterns (which hosts are twitter/instagram/telegram) are "
+    "not the subject of a theorem in this part (C18), only of the correspondence."
+)
 
 # number of nested self-calls the model of parse_twitter_url is given (see Model/Twitter.lean):
 # below what CPython's default recursion limit (1000 frames) leaves in a worker process; the
